@@ -1465,6 +1465,25 @@ impl PhysicalOperator for ExternalSortExec {
         // Clean up
         let _ = std::fs::remove_dir_all(&spill_dir);
 
+        // The in-memory path hands `fetch` to SortExec; the spilled path must
+        // honour it too, or a spilled `ORDER BY .. LIMIT n` returns every row.
+        let result = match self.fetch {
+            Some(fetch) => {
+                let mut remaining = fetch;
+                let mut kept = Vec::new();
+                for b in result {
+                    if remaining == 0 {
+                        break;
+                    }
+                    let take = remaining.min(b.num_rows());
+                    kept.push(b.slice(0, take));
+                    remaining -= take;
+                }
+                kept
+            }
+            None => result,
+        };
+
         Ok(Box::pin(stream::iter(result.into_iter().map(Ok))))
     }
 
